@@ -347,6 +347,33 @@ func isIdent(s []byte) bool {
 
 func quote(b []byte) string { return strconv.Quote(string(b)) }
 
+// startsWithMap: the printed form of n begins with '{' - as the condition of an if/for statement that
+// would be read as the statement's block ("missing condition in if statement")
+func startsWithMap(n *Node) bool {
+	for n != nil {
+		switch n.T {
+		case "map":
+			return true
+		case "idx", "sel", "slice", "call":
+			n = n.E
+		default:
+			return false
+		}
+	}
+	return false
+}
+
+// cond prints a condition, parenthesised when it would otherwise start with a map literal
+func (p *printer) cond(n *Node) {
+	if startsWithMap(n) {
+		p.buf.WriteString("(")
+		p.expr(n)
+		p.buf.WriteString(")")
+		return
+	}
+	p.expr(n)
+}
+
 func (p *printer) expr(n *Node) {
 	n.Pos = p.buf.Len()
 	defer func() { n.End = p.buf.Len() }()
@@ -566,7 +593,7 @@ func (p *printer) stmt(n *Node) {
 			p.simple(n.Init)
 			w("; ")
 		}
-		p.expr(n.C)
+		p.cond(n.C)
 		w(" ")
 		p.block(n.A)
 		if n.B != nil {
@@ -585,7 +612,7 @@ func (p *printer) stmt(n *Node) {
 			}
 			w("; ")
 			if n.C != nil {
-				p.expr(n.C)
+				p.cond(n.C)
 			}
 			w("; ")
 			if n.Post != nil {
@@ -593,7 +620,7 @@ func (p *printer) stmt(n *Node) {
 			}
 			w(" ")
 		} else if n.C != nil {
-			p.expr(n.C)
+			p.cond(n.C)
 			w(" ")
 		}
 		p.block(n.Body)
